@@ -7,5 +7,5 @@ for id in $(./bin/verif list); do
   out=$(./bin/verif check $id --tier thorough 2>&1); code=$?
   e=$(date +%s)
   echo "== $id exit=$code wall=$((e-s))s :: $(echo "$out" | grep "^$id tier" | cut -c1-220)"
-  echo "$out" | grep "^VIOLATION\|machinery\|^KNOWN" | cut -c1-200 | head -5
+  echo "$out" | grep "^VIOLATION\|machinery\|^KNOWN\|^verif:" | cut -c1-200 | head -5
 done
